@@ -644,6 +644,7 @@ static RETCODE adfFileSeekExt_ ( struct AdfFile * const file,
         adfEnv.eFct ( "adfFileSeekExt: error reading data block %d, file '%s'",
                       file->curDataPtr, file->fileHdr->fileName );
         file->curDataPtr = 0;  // invalidate data ptr
+        return rc;
     }
 
     file->nDataBlock++;
